@@ -42,6 +42,11 @@ impl std::fmt::Display for Error {
 pub fn decode<B: Buf>(size: u8, buf: &mut B) -> Result<Vec<u8>, Error> {
     let (flags, len) = prefix_int::decode(size - 1, buf)?;
     let len: usize = len.try_into()?;
+    if flags & 1 == 1 {
+        // The Huffman decoder addresses its input in bits, with `u32` positions, and looks up
+        // to two bytes ahead: refuse a literal whose bit length does not fit.
+        u32::try_from(len.saturating_mul(8).saturating_add(16))?;
+    }
     if buf.remaining() < len {
         return Err(Error::UnexpectedEnd);
     }
